@@ -2,7 +2,9 @@ package main
 
 import (
 	"fmt"
+	"os"
 	"path/filepath"
+	"strings"
 	"sync"
 )
 
@@ -27,7 +29,7 @@ func (d *driver) determinism(from, runs, reps int) int {
 				tag := fmt.Sprintf("det-%d-%d", i, rep)
 				a := workerArgs{Mode: "explore", Property: d.prop, VerifSeed: d.seed, From: i, To: i + 1, Stride: 1,
 					Out: filepath.Join(d.scratch, tag+".jsonl"), Root: filepath.Join(d.scratch, tag, "root")}
-				out, err := d.worker(a, d.cfg.WorkerTimeout, []string{"GOMAXPROCS=" + gmps[rep%len(gmps)]})
+				out, err := d.worker(a, d.cfg.WorkerTimeout, []string{"GOMAXPROCS=" + gmps[rep%len(gmps)], "VERIF_ELOG_FILE=" + filepath.Join(d.scratch, tag+".elog")})
 				rs, rerr := readResults(a.Out)
 				mu.Lock()
 				defer mu.Unlock()
@@ -45,6 +47,22 @@ func (d *driver) determinism(from, runs, reps int) int {
 		for rep := 1; rep < reps; rep++ {
 			if hashes[key{i, rep}] != hashes[key{i, 0}] {
 				fmt.Printf("NONDETERMINISM run %d: rep0=%s rep%d=%s\n", i, hashes[key{i, 0}], rep, hashes[key{i, rep}])
+				a, _ := os.ReadFile(filepath.Join(d.scratch, fmt.Sprintf("det-%d-0.elog", i)))
+				b, _ := os.ReadFile(filepath.Join(d.scratch, fmt.Sprintf("det-%d-%d.elog", i, rep)))
+				la, lb := strings.Split(string(a), "\n"), strings.Split(string(b), "\n")
+				for k := 0; k < len(la) || k < len(lb); k++ {
+					x, y := "", ""
+					if k < len(la) {
+						x = la[k]
+					}
+					if k < len(lb) {
+						y = lb[k]
+					}
+					if x != y {
+						fmt.Printf("  first difference at event %d:\n    rep0: %.400s\n    rep%d: %.400s\n", k, x, rep, y)
+						break
+					}
+				}
 				bad++
 			}
 		}
